@@ -50,3 +50,128 @@ Section Spec.
 
   Definition s_run (h : list mut) : list A := fold_left s_step h [].
 End Spec.
+
+(** * Programs over several set objects: the same command language interpreted on the heap
+    layer ([hexec]) and on the value layer ([vexec]: a state is the list of set values, an
+    operand is looked up, never changed; only mutators replace the entry of their receiver). *)
+Section Programs.
+  Variable T : Type.
+  Variable zero : T.
+  Variable grow : nat -> nat -> nat.
+  Variable eqb : T -> T -> bool.
+  Variable cmp : T -> T -> Z.
+  Variable draw : nat -> nat.
+
+  Inductive cmd :=
+  | CNew (k : kind)
+  | CAdd (r : nat) (vs : list T) | CRemove (r : nat) (vs : list T) | CRemoveAll (r : nat)
+  | CContains (r : nat) (vs : list T) | CSize (r : nat) | CIsEmpty (r : nat) | CAll (r : nat)
+  | CEqual (a b : nat) | CIsSubset (a b : nat) | CIsSuperset (a b : nat)
+  | CClone (r : nat) | CCloneEmpty (r : nat)
+  | CUnion (r : nat) (rs : list nat) | CIntersection (r : nat) (rs : list nat) | CDifference (r : nat) (rs : list nat)
+  | CAnyMatch (r : nat) (p : T -> bool) | CAllMatch (r : nat) (p : T -> bool) | CFirstMatch (r : nat) (p : T -> bool)
+  | CSelectMatch (r : nat) (p : T -> bool) | CPartitionMatch (r : nat) (p : T -> bool).
+
+  Inductive out :=
+  | OUnit | OBool (b : bool) | ONat (n : nat) | OList (l : list T) | OOpt (o : option T)
+  | ORef (r : nat) | ORefs (a b : nat).
+
+  (** the object a command is entitled to change *)
+  Definition target (c : cmd) : option nat :=
+    match c with CAdd r _ | CRemove r _ | CRemoveAll r => Some r | _ => None end.
+
+  Record vstate := mkvs { vobjs : list (vset T); vtick : nat }.
+
+  Definition vget (st : vstate) (r : nat) : res (vset T) :=
+    match nth_error (vobjs st) r with Some s => Ok s | None => Panic BadRef end.
+
+  Fixpoint vgets (st : vstate) (rs : list nat) : res (list (vset T)) :=
+    match rs with
+    | [] => Ok []
+    | r :: rs' => s <- vget st r ;; ss <- vgets st rs' ;; Ok (s :: ss)
+    end.
+
+  Definition vput (st : vstate) (r : nat) (s : vset T) : vstate := mkvs (set_nth (vobjs st) r s) (vtick st).
+  Definition vpush (st : vstate) (s : vset T) (t : nat) : vstate := mkvs (vobjs st ++ [s]) t.
+
+  Definition vexec (st : vstate) (c : cmd) : res (out * vstate) :=
+    let n := length (vobjs st) in
+    match c with
+    | CNew k => Ok (ORef n, vpush st (vnew T k) (vtick st))
+    | CAdd r vs => s <- vget st r ;; s' <- vadd T eqb cmp s vs ;; Ok (OUnit, vput st r s')
+    | CRemove r vs => s <- vget st r ;; s' <- vremove T eqb cmp s vs ;; Ok (OUnit, vput st r s')
+    | CRemoveAll r => s <- vget st r ;; Ok (OUnit, vput st r (vremoveAll T s))
+    | CContains r vs => s <- vget st r ;; b <- vcontains T eqb cmp s vs ;; Ok (OBool b, st)
+    | CSize r => s <- vget st r ;; Ok (ONat (vsize T s), st)
+    | CIsEmpty r => s <- vget st r ;; Ok (OBool (visEmpty T s), st)
+    | CAll r => s <- vget st r ;; '(ms, t) <- vall T draw s (vtick st) ;; Ok (OList ms, mkvs (vobjs st) t)
+    | CEqual a b => sa <- vget st a ;; sb <- vget st b ;; r <- vequal T eqb cmp sa sb ;; Ok (OBool r, st)
+    | CIsSubset a b => sa <- vget st a ;; sb <- vget st b ;;
+                       '(r, t) <- visSubset T eqb cmp draw sa sb (vtick st) ;; Ok (OBool r, mkvs (vobjs st) t)
+    | CIsSuperset a b => sa <- vget st a ;; sb <- vget st b ;;
+                         '(r, t) <- visSuperset T eqb cmp draw sa sb (vtick st) ;; Ok (OBool r, mkvs (vobjs st) t)
+    | CClone r => s <- vget st r ;; Ok (ORef n, vpush st (vclone T s) (vtick st))
+    | CCloneEmpty r => s <- vget st r ;; Ok (ORef n, vpush st (vcloneEmpty T s) (vtick st))
+    | CUnion r rs => s <- vget st r ;; ss <- vgets st rs ;;
+                     '(u, t) <- vunion T eqb cmp draw s ss (vtick st) ;; Ok (ORef n, vpush st u t)
+    | CIntersection r rs => s <- vget st r ;; ss <- vgets st rs ;;
+                            u <- vintersection T eqb cmp s ss ;; Ok (ORef n, vpush st u (vtick st))
+    | CDifference r rs => s <- vget st r ;; ss <- vgets st rs ;;
+                          '(u, t) <- vdifference T eqb cmp draw s ss (vtick st) ;; Ok (ORef n, vpush st u t)
+    | CAnyMatch r p => s <- vget st r ;; Ok (OBool (vanyMatch T s p), st)
+    | CAllMatch r p => s <- vget st r ;; Ok (OBool (vallMatch T s p), st)
+    | CFirstMatch r p => s <- vget st r ;; Ok (OOpt (vfirstMatch T s p), st)
+    | CSelectMatch r p => s <- vget st r ;; u <- vselectMatch T eqb cmp s p ;; Ok (ORef n, vpush st u (vtick st))
+    | CPartitionMatch r p => s <- vget st r ;; '(a, b) <- vpartitionMatch T eqb cmp s p ;;
+                             Ok (ORefs n (S n), mkvs (vobjs st ++ [a; b]) (vtick st))
+    end.
+
+
+  Definition hexec (h : heap T) (c : cmd) : res (out * heap T) :=
+    match c with
+    | CNew k => let '(r, h') := h_new T zero h k in Ok (ORef r, h')
+    | CAdd r vs => h' <- h_add T zero grow eqb cmp h r vs ;; Ok (OUnit, h')
+    | CRemove r vs => h' <- h_remove T zero grow eqb cmp h r vs ;; Ok (OUnit, h')
+    | CRemoveAll r => h' <- h_removeAll T zero h r ;; Ok (OUnit, h')
+    | CContains r vs => b <- h_contains T eqb cmp h r vs ;; Ok (OBool b, h)
+    | CSize r => n <- h_size T h r ;; Ok (ONat n, h)
+    | CIsEmpty r => b <- h_isEmpty T h r ;; Ok (OBool b, h)
+    | CAll r => '(ms, h') <- h_all T draw h r ;; Ok (OList ms, h')
+    | CEqual a b => r <- h_equal T eqb cmp h a b ;; Ok (OBool r, h)
+    | CIsSubset a b => '(r, h') <- h_isSubset T eqb cmp draw h a b ;; Ok (OBool r, h')
+    | CIsSuperset a b => '(r, h') <- h_isSuperset T eqb cmp draw h a b ;; Ok (OBool r, h')
+    | CClone r => '(c, h') <- h_clone T zero h r ;; Ok (ORef c, h')
+    | CCloneEmpty r => '(c, h') <- h_cloneEmpty T zero h r ;; Ok (ORef c, h')
+    | CUnion r rs => '(c, h') <- h_union T zero grow eqb cmp draw h r rs ;; Ok (ORef c, h')
+    | CIntersection r rs => '(c, h') <- h_intersection T zero grow eqb cmp h r rs ;; Ok (ORef c, h')
+    | CDifference r rs => '(c, h') <- h_difference T zero grow eqb cmp draw h r rs ;; Ok (ORef c, h')
+    | CAnyMatch r p => b <- h_anyMatch T h r p ;; Ok (OBool b, h)
+    | CAllMatch r p => b <- h_allMatch T h r p ;; Ok (OBool b, h)
+    | CFirstMatch r p => o <- h_firstMatch T h r p ;; Ok (OOpt o, h)
+    | CSelectMatch r p => '(c, h') <- h_selectMatch T zero grow eqb cmp h r p ;; Ok (ORef c, h')
+    | CPartitionMatch r p => '(a, b, h') <- h_partitionMatch T zero grow eqb cmp h r p ;; Ok (ORefs a b, h')
+    end.
+
+  Fixpoint vrun (st : vstate) (cs : list cmd) : res (list out * vstate) :=
+    match cs with
+    | [] => Ok ([], st)
+    | c :: cs' => '(o, st1) <- vexec st c ;; '(os, st2) <- vrun st1 cs' ;; Ok (o :: os, st2)
+    end.
+
+  Fixpoint hrun (h : heap T) (cs : list cmd) : res (list out * heap T) :=
+    match cs with
+    | [] => Ok ([], h)
+    | c :: cs' => '(o, h1) <- hexec h c ;; '(os, h2) <- hrun h1 cs' ;; Ok (o :: os, h2)
+    end.
+
+  (** every object reference of a command denotes an existing object *)
+  Definition refs (c : cmd) : list nat :=
+    match c with
+    | CNew _ => []
+    | CAdd r _ | CRemove r _ | CRemoveAll r | CContains r _ | CSize r | CIsEmpty r | CAll r
+    | CClone r | CCloneEmpty r | CAnyMatch r _ | CAllMatch r _ | CFirstMatch r _
+    | CSelectMatch r _ | CPartitionMatch r _ => [r]
+    | CEqual a b | CIsSubset a b | CIsSuperset a b => [a; b]
+    | CUnion r rs | CIntersection r rs | CDifference r rs => r :: rs
+    end.
+End Programs.
